@@ -361,6 +361,28 @@ def ev_mid_failures(p, keep):
     return 'done'
 
 
+def ev_bare_base_classes(p, keep):
+    """The mapping / codec interface used on the bare base classes and on an
+    application subclass (first-use side effects on shared class state)."""
+    out = []
+    for name in ('Frame', 'BasicProperties'):
+        cls = getattr(p.base, name, None)
+        if cls is None:
+            continue
+        try:
+            o = cls()
+            out.append([name, len(o), sorted(dict(o)), 'x' in o,
+                        list(cls.attributes()), o.marshal().hex()])
+        except Exception as exc:  # noqa
+            out.append([name, 'raised', type(exc).__name__])
+
+    class AppDeclare(p.commands.Queue.Declare):
+        pass
+    o = AppDeclare(queue='app')
+    out.append([len(o), list(dict(o)), p.frame.marshal(o, 1).hex()])
+    return out
+
+
 EVENTS = [
     ('construct Queue.Declare', ev_construct('commands.Queue.Declare')),
     ('construct Exchange.Declare', ev_construct('commands.Exchange.Declare')),
@@ -413,6 +435,7 @@ EVENTS = [
     ('marshal refused mid-way', ev_marshal_refused),
     ('marshal invalid after setattr', ev_marshal_invalid),
     ('refused / failed mid-container operations', ev_mid_failures),
+    ('bare base classes and an application subclass', ev_bare_base_classes),
     # equal-but-distinct arguments (a memoised encoder conflates them)
     ('encode Decimal 1.0', lambda p, keep: p.encode.field_table(
         {'d': [A.D('1.0'), A.D('0')]}).hex()),
